@@ -56,6 +56,8 @@ pub struct Handle {
     pub append: bool,
     /// path the handle was opened with (for guard predicates only)
     pub path: String,
+    /// one of a try_clone pair: whether the two descriptors share one cursor is not judged
+    pub dup: bool,
 }
 
 #[derive(Clone, Debug, Default)]
@@ -273,13 +275,26 @@ impl Model {
         }
         self.handles.insert(
             h,
-            Handle { ino, cursor: 0, read: f.read, write: wants_write, append: f.append, path: path.to_string() },
+            Handle { ino, cursor: 0, read: f.read, write: wants_write, append: f.append, path: path.to_string(), dup: false },
         );
         Obs::Unit
     }
 
     pub fn close(&mut self, h: u8) {
         self.handles.remove(&h);
+    }
+
+    pub fn try_clone(&mut self, h: u8, new: u8) -> Obs {
+        if h == new {
+            return Obs::Unjudged;
+        }
+        self.close(new);
+        let Some(mut hd) = self.handles.get(&h).cloned() else { return Obs::Unjudged };
+        hd.cursor = 0;
+        hd.dup = true;
+        self.handles.get_mut(&h).unwrap().dup = true;
+        self.handles.insert(new, hd);
+        Obs::Unit
     }
 
     pub fn create_dir(&mut self, path: &str) -> Obs {
@@ -561,6 +576,9 @@ impl Model {
     /// whence: 0 = Start, 1 = Current, 2 = End
     pub fn seek(&mut self, h: u8, whence: u8, off: i64) -> Obs {
         let Some(hd) = self.handles.get(&h).cloned() else { return Obs::Unjudged };
+        if hd.dup && whence == 1 {
+            return Obs::Unjudged;
+        }
         let base = match whence {
             0 => 0i64,
             1 => hd.cursor as i64,
